@@ -10,6 +10,7 @@ import (
 	"time"
 
 	"mellium.im/xmlstream"
+	"mellium.im/xmpp/ibb"
 	"mellium.im/xmpp/jid"
 	"mellium.im/xmpp/stanza"
 
@@ -24,13 +25,14 @@ import (
 //
 //	C06 wrap <api> <shape>     api   U UnmarshalIQ   N UnmarshalIQ(v = nil)   V UnmarshalIQElement
 //	                                 I IterIQ        J IterIQElement
+//	                                 O ibb OpenIQ (packets in iqs)   P ibb OpenIQ (packets in messages)   [round E]
 //	                           shape <typ><from><to><payload>
 //	                                 typ r result | e error      from / to  - absent | v valid | x not a JID
 //	                                 payload n none | o one child | c child with children | t text, then a child
 //	                                         | b content that cannot be read to its end | w only whitespace
 //	observation: err=<0|1> handed=<0|1> probe=<live|dead|stall>
 
-var wrapAPIs = "UNVIJ"
+var wrapAPIs = "UNVIJOP"
 
 func wrapShapes() []string {
 	var out []string
@@ -141,6 +143,9 @@ func runWrap(r *common.Run, api byte, shape string, class string) {
 				out.err = rs.S.UnmarshalIQ(ctx, iq.Wrap(payload()), nil)
 			case 'V':
 				out.err = rs.S.UnmarshalIQElement(ctx, payload(), iq, &v)
+			case 'O', 'P':
+				// ibb.open waits for the reply to its own open request and owns the response
+				_, out.err = (&ibb.Handler{}).OpenIQ(ctx, stanza.IQ{ID: "w1", To: jid.MustParse("example.net")}, rs.S, api == 'O', 0, "sid1")
 			case 'I':
 				out.iter, _, out.err = rs.S.IterIQ(ctx, iq.Wrap(payload()))
 			default:
@@ -230,5 +235,5 @@ func runWraps(r *common.Run) {
 			runWrap(r, byte(api), sh, "wrap")
 		}
 	}
-	r.Exhaustive = append(r.Exhaustive, "every IQ helper that owns its response (UnmarshalIQ with and without target, UnmarshalIQElement, IterIQ, IterIQElement) x every reply shape (type x from x to: absent / valid / not a JID x six payload forms)")
+	r.Exhaustive = append(r.Exhaustive, "every IQ helper that owns its response (UnmarshalIQ with and without target, UnmarshalIQElement, IterIQ, IterIQElement, ibb OpenIQ for acknowledged and for message-carried streams) x every reply shape (type x from x to: absent / valid / not a JID x six payload forms)")
 }
